@@ -1,8 +1,21 @@
-(* C13 - displayed numbers agree numerically with the stored value. (theorems: work in progress) *)
-From Coq Require Import ZArith NArith List Bool.
-From NP Require Import Gen.GenC13 Model.PyBase Model.Digits Model.C13Tables Model.NumFormat.
-Import ListNotations.
+(* C13 - displayed numbers agree numerically with the stored value.
+   Property theorems only; each is closed by [exact] of a lemma from Proofs/.
 
+   Vocabulary (Model/Digits.v, Model/NumFormat.v):
+     dec                      (-1)^dneg * dmant * 10^dexp : the digits of Python's str(value)
+     value_rat is_int m e     the magnitude of the Python number as an exact rational (vn, vd):
+                              the int itself, or the correctly rounded binary64 value of the decimal
+     round_sig 15, rhu_at     sigfig's rounding to 15 significant digits / half-up to a decimal place
+     format_*                 the text Cell.formatted_value returns for each built-in number format
+     readback_*               the number a displayed text denotes in its notation
+   The tree the model mirrors is /repo with /verif/fixes/C13-*.patch applied. *)
+From Coq Require Import ZArith NArith List Bool.
+From NP Require Import Gen.GenC13 Model.PyBase Model.Digits Model.C13Tables Model.NumFormat
+  Proofs.DigitsP Proofs.B64P Proofs.NumFormatP Proofs.BaseP Proofs.SciFracP Proofs.LimitDenP Proofs.AutoP.
+Import ListNotations.
+Open Scope Z_scope.
+
+(* translator tie: the currency tables and format constants in /repo are the ones the model uses *)
 Theorem c13_tables :
   GenC13.currency_symbols = C13Tables.currency_symbols /\
   GenC13.currencies = C13Tables.currencies /\
@@ -14,3 +27,270 @@ Theorem c13_tables :
   GenC13.negative_styles = C13Tables.negative_styles.
 Proof. repeat split; reflexivity. Qed.
 Print Assumptions c13_tables.
+
+(* ---------------------------------------------------------------- decimal / percentage *)
+
+(* number and percentage formats with p decimal places: the displayed text reads back as the value
+   rounded (15 significant digits, then half-up to p places) with exactly p decimals, for every
+   decimal, every p below the automatic marker, every separator / negative style choice.
+   For a percentage d is the decimal of value*100 and the text carries a % sign. *)
+Theorem decimal_display : forall (is_int : bool) (d : dec) (places : Z) (sep : bool) (ns : Z) (pct : bool),
+  0 <= dmant d -> 0 <= places < AUTO ->
+  let m1 := fst (round_sig SIG (dmant d) (dexp d)) in
+  let e1 := snd (round_sig SIG (dmant d) (dexp d)) in
+  let M := rhu_at m1 e1 (- places) in
+  readback_decimal (format_decimal is_int d places sep ns pct) = Some (shown_negative d ns M, M, places).
+Proof. exact decimal_display_lemma. Qed.
+Print Assumptions decimal_display.
+
+Theorem percent_display : forall (is_int : bool) (d100 : dec) (places : Z) (sep : bool) (ns : Z),
+  0 <= dmant d100 -> 0 <= places < AUTO ->
+  let m1 := fst (round_sig SIG (dmant d100) (dexp d100)) in
+  let e1 := snd (round_sig SIG (dmant d100) (dexp d100)) in
+  let M := rhu_at m1 e1 (- places) in
+  readback_decimal (format_decimal is_int d100 places sep ns true) = Some (shown_negative d100 ns M, M, places).
+Proof. intros is_int d100 places sep ns. exact (decimal_display_lemma is_int d100 places sep ns true). Qed.
+Print Assumptions percent_display.
+
+(* what "rounded" means: M is the multiple of 10^lp nearest to mant*10^ex, ties upwards; and it is the
+   number itself when it has no digit below 10^lp *)
+Theorem rounding_is_half_up : forall mant ex lp : Z, 0 <= mant -> ex < lp ->
+  let k := lp - ex in let M := rhu_at mant ex lp in
+  0 <= M /\ 2 * mant - 10 ^ k < 2 * (M * 10 ^ k) <= 2 * mant + 10 ^ k.
+Proof. exact rhu_at_spec. Qed.
+Print Assumptions rounding_is_half_up.
+
+Theorem rounding_exact_when_short : forall mant ex lp : Z, lp <= ex -> rhu_at mant ex lp = mant * 10 ^ (ex - lp).
+Proof. exact rhu_at_exact_val. Qed.
+Print Assumptions rounding_exact_when_short.
+
+(* values with at most 15 significant digits are displayed from their own digits *)
+Theorem fifteen_digits_identity : forall mant ex : Z, ndig mant <= SIG -> round_sig SIG mant ex = (mant, ex).
+Proof. exact (round_sig_small SIG). Qed.
+Print Assumptions fifteen_digits_identity.
+
+(* decoration only: whatever the separator, negative style, percent sign - the digits and the decimal
+   point of the text are those of the plain rounded number *)
+Theorem decoration_only : forall (is_int : bool) (d : dec) (places : Z) (sep : bool) (ns : Z) (pct : bool),
+  0 <= dmant d -> 0 <= places < AUTO ->
+  let m1 := fst (round_sig SIG (dmant d) (dexp d)) in
+  let e1 := snd (round_sig SIG (dmant d) (dexp d)) in
+  filter is_dd (format_decimal is_int d places sep ns pct) = plain_digits (rhu_at m1 e1 (- places)) places.
+Proof. exact decimal_digits_lemma. Qed.
+Print Assumptions decoration_only.
+
+(* currency: symbol, accounting layout, separator and negative style change neither a digit nor the
+   magnitude; the sign is shown by a minus sign or by parentheses (accounting: always parentheses) *)
+Theorem currency_display : forall (is_int : bool) (d : dec) (places : Z) (sep : bool) (ns : Z) (acct : bool) (code : list N),
+  0 <= dmant d -> 0 <= places < AUTO -> decoration code = true ->
+  let m1 := fst (round_sig SIG (dmant d) (dexp d)) in
+  let e1 := snd (round_sig SIG (dmant d) (dexp d)) in
+  let M := rhu_at m1 e1 (- places) in
+  readback_decimal (format_currency is_int d places sep ns acct code)
+    = Some (shown_negative_currency d ns M acct, M, places) /\
+  filter is_dd (format_currency is_int d places sep ns acct code) = plain_digits M places.
+Proof. exact currency_display_lemma. Qed.
+Print Assumptions currency_display.
+
+(* every currency code the library accepts is pure decoration, and so is its symbol *)
+Theorem currency_codes_are_decoration : forall code : list N,
+  existsb (str_eqb code) currencies = true -> decoration code = true /\ decoration (currency_symbol code) = true.
+Proof. intros code H. split; [apply known_code_decor; exact H|apply currency_symbol_decor, known_code_decor; exact H]. Qed.
+Print Assumptions currency_codes_are_decoration.
+
+(* a carry that adds a digit: 10^k - 5*10^(-p-1) <= |x| < 10^k shows 1 followed by k zeros, grouping
+   recomputed (999.995 at two places -> 1,000.00) *)
+Theorem rounding_carry : forall (mant p k j : Z) (sep : bool), 0 <= k -> 0 <= p -> 1 <= j ->
+  10 ^ (k + p + j) - 5 * 10 ^ (j - 1) <= mant < 10 ^ (k + p + j) ->
+  rhu_at mant (- p - j) (- p) = 10 ^ (k + p) /\
+  fixed_str sep (10 ^ (k + p)) p =
+    (if sep then group3 (49%N :: zeros k) else 49%N :: zeros k) ++ (if 0 <? p then c_dot :: zeros p else []).
+Proof.
+  intros mant p k j sep Hk Hp Hj H. split; [apply rounding_carry_value; assumption|apply rounding_carry_text; assumption].
+Qed.
+Print Assumptions rounding_carry.
+
+(* ---------------------------------------------------------------- automatic places *)
+
+(* an integer-valued number with automatic places shows int(value): all its digits, no decimals *)
+Theorem auto_integer_display : forall (is_int : bool) (d : dec) (places : Z) (sep : bool) (ns : Z) (pct : bool),
+  AUTO <= places ->
+  let vn := fst (value_rat is_int (dmant d) (dexp d)) in
+  let vd := snd (value_rat is_int (dmant d) (dexp d)) in
+  vn mod vd = 0 ->
+  readback_decimal (format_decimal is_int d places sep ns pct) = Some (shown_negative_auto d ns (vn / vd), vn / vd, 0) /\
+  filter is_dd (format_decimal is_int d places sep ns pct) = zstr (vn / vd).
+Proof. exact auto_integer_lemma. Qed.
+Print Assumptions auto_integer_display.
+
+Theorem auto_int_display : forall (d : dec) (places : Z) (sep : bool) (ns : Z) (pct : bool),
+  AUTO <= places -> 0 < dmant d -> 0 <= dexp d ->
+  let n := dmant d * 10 ^ dexp d in
+  readback_decimal (format_decimal true d places sep ns pct) = Some (shown_negative_auto d ns n, n, 0).
+Proof. exact auto_int_lemma. Qed.
+Print Assumptions auto_int_display.
+
+(* open finding auto-integer:ge2^53.  Full statement: a float whose decimal is an integer is shown digit
+   for digit.  It holds below 2^53 (_partial) and fails above (_refuted: 0.754499470762295e15 as a
+   percentage, i.e. the decimal 754499470762295 * 10^2, is shown as 75449947076229504). *)
+Theorem auto_float_integer_partial : forall (d : dec) (places : Z) (sep : bool) (ns : Z) (pct : bool),
+  AUTO <= places -> 0 < dmant d -> 0 <= dexp d -> dmant d * 10 ^ dexp d < 2 ^ 53 ->
+  let n := dmant d * 10 ^ dexp d in
+  readback_decimal (format_decimal false d places sep ns pct) = Some (shown_negative_auto d ns n, n, 0).
+Proof. exact auto_float_integer_lemma. Qed.
+Print Assumptions auto_float_integer_partial.
+
+Theorem auto_float_integer_refuted : exists (d : dec) (shown : Z),
+  0 < dmant d /\ 0 <= dexp d /\ ndig (dmant d) <= SIG /\
+  readback_decimal (format_decimal false d AUTO false 0 true) = Some (false, shown, 0) /\
+  shown <> dmant d * 10 ^ dexp d.
+Proof.
+  exists (mkdec false 754499470762295 2), 75449947076229504.
+  split; [reflexivity|]. split; [discriminate|]. split; [vm_compute; discriminate|].
+  split; [exact (proj1 auto_float_integer_witness)|vm_compute; discriminate].
+Qed.
+Print Assumptions auto_float_integer_refuted.
+
+(* ---------------------------------------------------------------- number bases *)
+
+(* the integer a base format shows is the nearest integer to the value (Python round: ties to even) *)
+Theorem base_shows_nearest_integer : forall (is_int : bool) (d : dec),
+  let vn := fst (value_rat is_int (dmant d) (dexp d)) in
+  let vd := snd (value_rat is_int (dmant d) (dexp d)) in
+  let v := base_shown is_int d in
+  0 <= v /\ 2 * vn - vd <= 2 * (v * vd) <= 2 * vn + vd.
+Proof.
+  intros is_int d. cbv zeta. unfold base_shown.
+  pose proof (value_rat_pos is_int (dmant d) (dexp d)) as H.
+  destruct (value_rat is_int (dmant d) (dexp d)) as [vn vd]. cbn [fst snd]. destruct H as [H1 H2].
+  apply rne_div_spec; assumption.
+Qed.
+Print Assumptions base_shows_nearest_integer.
+
+(* bases 2..36 with a minus sign (and two's-complement formats of non-negative numbers): the digits read
+   back, in that base, as the integer shown; they are zero-padded to exactly max(places, natural width) *)
+Theorem base_display : forall (is_int : bool) (d : dec) (base places : Z) (minus : bool),
+  2 <= base <= 36 ->
+  (minus = true \/ twos_base base = false \/ dneg d = false \/ base_shown is_int d = 0) ->
+  let v := base_shown is_int d in
+  let s := format_base is_int d base places minus in
+  readback_base base s = (if dneg d then - v else v) /\
+  (let digits := if (0 <? v) && dneg d then tl s else s in
+   zlen digits = Z.max places (if v <=? 0 then 1 else nbdig base v)).
+Proof. exact base_minus_lemma. Qed.
+Print Assumptions base_display.
+
+(* two's complement (bases 2, 8, 16) of a negative number: read at its printed width - the leading 1 bit
+   is the sign bit - the text is the number; the width is at least 32 bits *)
+Theorem base_twos_display : forall (is_int : bool) (d : dec) (base places : Z),
+  (base = 2 \/ base = 8 \/ base = 16) -> dneg d = true -> 0 < base_shown is_int d ->
+  let v := base_shown is_int d in
+  let s := format_base is_int d base places false in
+  readback_twos base s = - v /\ 32 <= Z.log2 (bval base s) + 1.
+Proof. exact base_twos_lemma. Qed.
+Print Assumptions base_twos_display.
+
+(* ---------------------------------------------------------------- scientific *)
+
+(* d.ddd..E+XX with p decimals: the mantissa has p+1 digits, 10^p <= q < 10^(p+1), and q*10^e is a
+   (p+1)-digit decimal nearest to the stored binary value (ties to even), X = e + p *)
+Theorem scientific_display : forall (d : dec) (p : Z), 0 <= dmant d -> 0 <= p ->
+  let m1 := fst (round_sig SIG (dmant d) (dexp d)) in
+  let e1 := snd (round_sig SIG (dmant d) (dexp d)) in
+  let vn := fst (value_rat false m1 e1) in
+  let vd := snd (value_rat false m1 e1) in
+  if vn <=? 0 then readback_scientific (format_scientific d p) = Some (dneg d, 0, p, 0)
+  else exists q e,
+    round_float 10 (p + 1) vn vd = (q, e) /\
+    readback_scientific (format_scientific d p) = Some (dneg d, q, p, e + p) /\
+    10 ^ p <= q < 10 ^ (p + 1) /\ nearest_scaled 10 vn vd q e.
+Proof. exact scientific_display_lemma. Qed.
+Print Assumptions scientific_display.
+
+(* ---------------------------------------------------------------- fractions *)
+
+(* fixed denominators (halves .. hundredths): the text reads back as whole + num/den exactly (a shown
+   fraction has the asked denominator), the sign is kept unless the shown value is zero *)
+Theorem fraction_display : forall (is_int : bool) (d : dec) (acc : Z),
+  0 <= dmant d -> 0 < acc -> Z.land acc 4278190080 = 0 ->
+  let vn := fst (value_rat is_int (dmant d) (dexp d)) in
+  let vd := snd (value_rat is_int (dmant d) (dexp d)) in
+  let whole := vn / vd in
+  let num := fraction_numerator acc vn vd in
+  exists s neg w a b,
+    format_fraction is_int d acc = Ok s /\ readback_fraction s = Some (neg, w, a, b) /\
+    0 < b /\ (w * b + a) * acc = (whole * acc + num) * b /\ (a = 0 \/ b = acc) /\
+    neg = (is_neg d && negb (str_eqb (frac_parts whole num acc) [48%N])) /\
+    (str_eqb (frac_parts whole num acc) [48%N] = true -> w = 0 /\ a = 0).
+Proof. exact fraction_fixed_lemma. Qed.
+Print Assumptions fraction_display.
+
+(* ... and num/den is within 1/(2 den) of the fractional part, up to the binary64 rounding of the
+   product den * frac:  | num - den*frac | <= 1/2 + (num + 1/2) * 2^-53 *)
+Theorem fraction_error_bound : forall acc vn vd : Z, 0 <= vn -> 0 < vd -> 0 < acc ->
+  let fN := vn - vn / vd * vd in
+  let num := fraction_numerator acc vn vd in
+  2 ^ 54 * Z.abs (num * vd - acc * fN) <= vd * (2 ^ 53 + 2 * num + 1).
+Proof. exact fraction_numerator_error. Qed.
+Print Assumptions fraction_error_bound.
+
+(* digit-limited accuracies (up to 1, 2, 3 digits).  Proved: Fraction.limit_denominator's loop always
+   ends (fuel suffices), the denominator shown is within 1 .. 10^k - 1, the text reads back as exactly
+   the fraction p/q the algorithm chose, which is not below the whole part.
+   NOT proved here (fraction_display_closest, the full statement): p/q is a closest fraction to vn/vd
+   among denominators <= 10^k - 1; it needs the Farey-neighbour argument for the two candidates.  The
+   implementation-only oracle checks it by brute force over all denominators on every run. *)
+Theorem fraction_digits_display_partial : forall (is_int : bool) (d : dec) (acc : Z),
+  0 <= dmant d -> Z.land acc 4278190080 <> 0 -> 0 <= 4294967296 - acc -> 1 <= 10 ^ (4294967296 - acc) - 1 ->
+  let vn := fst (value_rat is_int (dmant d) (dexp d)) in
+  let vd := snd (value_rat is_int (dmant d) (dexp d)) in
+  let maxd := 10 ^ (4294967296 - acc) - 1 in
+  exists p q s neg w a b,
+    limit_denominator vn vd maxd = Some (p, q) /\ 1 <= q <= maxd /\
+    format_fraction is_int d acc = Ok s /\ readback_fraction s = Some (neg, w, a, b) /\
+    0 < b /\ (w * b + a) * q = p * b /\ (a = 0 \/ b = q) /\
+    (neg = true -> is_neg d = true) /\ (is_neg d = true -> neg = false -> p = 0).
+Proof. exact fraction_digits_lemma. Qed.
+Print Assumptions fraction_digits_display_partial.
+
+(* ---------------------------------------------------------------- star rating *)
+Theorem rating_display : forall (is_int : bool) (d : dec),
+  let vn := fst (value_rat is_int (dmant d) (dexp d)) in
+  let vd := snd (value_rat is_int (dmant d) (dexp d)) in
+  readback_rating (format_rating is_int d) = if dneg d then 0 else vn / vd.
+Proof. exact rating_lemma. Qed.
+Print Assumptions rating_display.
+
+(* ---------------------------------------------------------------- the binary64 value *)
+
+(* the float the model attributes to a decimal n/d: 53-bit mantissa, relative error at most 2^-53 *)
+Theorem binary64_rounding : forall n d : Z, 0 < n -> 0 < d ->
+  let '(vn, vd) := rat_of_b64 (b64_of_rat n d) in
+  0 < vn /\ 0 < vd /\ 2 ^ 53 * Z.abs (vn * d - n * vd) <= vn * d.
+Proof. exact b64_rat_spec. Qed.
+Print Assumptions binary64_rounding.
+
+Theorem binary64_mantissa : forall n d : Z, 0 < n -> 0 < d ->
+  let '(m, e) := b64_of_rat n d in
+  2 ^ 52 <= m < 2 ^ 53 /\ 2 * Z.abs (m * scB 2 d e - scA 2 n e) <= scB 2 d e.
+Proof. exact b64_of_rat_spec. Qed.
+Print Assumptions binary64_mantissa.
+
+Theorem binary64_exact_integers : forall n : Z, 0 < n < 2 ^ 53 ->
+  let '(vn, vd) := rat_of_b64 (b64_of_rat n 1) in 0 < vd /\ vn = n * vd.
+Proof. exact b64_int_exact. Qed.
+Print Assumptions binary64_exact_integers.
+
+(* ---------------------------------------------------------------- non-vacuity *)
+(* 999.995 -> 1,000.00 ; -1234.5 GBP accounting -> £ TAB (1,234.50) ; -0.004 -> 0.00 ; -255 in 32-bit hex *)
+Example c13_examples :
+  format_decimal false (mkdec false 999995 (-3)) 2 true 0 false = [49;44;48;48;48;46;48;48]%N /\
+  format_currency false (mkdec true 12345 (-1)) 2 true 1 true [71;66;80]%N
+    = [163;9;40;49;44;50;51;52;46;53;48;41]%N /\
+  format_decimal false (mkdec true 4 (-3)) 2 true 0 false = [48;46;48;48]%N /\
+  format_base true (mkdec true 255 0) 16 0 false = [70;70;70;70;70;70;48;49]%N /\
+  format_fraction false (mkdec true 15 (-1)) 2 = Ok [45;49;32;49;47;50]%N /\
+  format_scientific (mkdec false 12345678 (-4)) 3 = [49;46;50;51;53;69;43;48;51]%N /\
+  readback_decimal [163;9;40;49;44;50;51;52;46;53;48;41]%N = Some (true, 123450, 2) /\
+  readback_twos 16 [70;70;70;70;70;70;48;49]%N = -255.
+Proof. vm_compute. repeat split. Qed.
